@@ -1091,6 +1091,27 @@ func ruleSpongeSqueeze(cx *Ctx) []Obligation {
 			}
 			al, ok := ia.X.(*ssa.Alloc)
 			if !ok {
+				// the rate part as a sub-slice: an element of state[:SPONGE_RATE] (or state[0:SPONGE_RATE]) lies in the
+				// rate part whatever the index is (Go's bounds check), e.g. `for _, s := range state[:SPONGE_RATE]`
+				if sl, isSl := ia.X.(*ssa.Slice); isSl && reachesAppend(ld, 0) {
+					if sal, isAl := sl.X.(*ssa.Alloc); isAl {
+						if sat, isArr := sal.Type().Underlying().(*types.Pointer).Elem().Underlying().(*types.Array); isArr && typeIs(sat.Elem(), "goldilocks.Variable") && sat.Len() > 4 {
+							site := P.Pos(ld.Pos())
+							lowOK := sl.Low == nil
+							if lo, isC := constInt(sl.Low); sl.Low != nil && isC && lo == 0 {
+								lowOK = true
+							}
+							hi, hiC := int64(0), false
+							if sl.High != nil {
+								hi, hiC = constInt(stripCopies(sl.High))
+							}
+							if !lowOK || !hiC || hi != rate || rate >= sat.Len() {
+								return []Obligation{bad(key, desc, "state elements are output from a window of the state that is not state[:SPONGE_RATE]", site)}
+							}
+							found++
+						}
+					}
+				}
 				continue
 			}
 			at, isArr := al.Type().Underlying().(*types.Pointer).Elem().Underlying().(*types.Array)
